@@ -25,7 +25,7 @@ pub fn run_case(case: &Case, opts: ExecOpts) -> CaseResult {
     let mut violations = std::mem::take(&mut ex.violations);
     let mut internal = std::mem::take(&mut ex.internal_errors);
     let cov = ex.cov.clone();
-    let had_problem = !violations.is_empty() || !internal.is_empty();
+    let had_problem = ex.fatal || !internal.is_empty();
     let r2 = std::panic::catch_unwind(std::panic::AssertUnwindSafe(move || drop(ex)));
     if r2.is_err() {
         internal.push("panic while dropping the interpreter".into());
